@@ -118,3 +118,62 @@ theorem nsum_pair (A B : Finset ℕ) : nsum [A, B] = sumset A B := by
   simp only [nsum]
   rw [sumset_zero_right]
 end Pydsdl
+
+namespace Pydsdl
+def aligned (A : Finset ℕ) (a : ℕ) : Prop := ∀ x ∈ A, a ∣ x
+
+theorem sumset_zero_left (A : Finset ℕ) : sumset {0} A = A := by
+  ext y
+  rw [mem_sumset]
+  constructor
+  · rintro ⟨a, ha, b, hb, rfl⟩
+    rw [Finset.mem_singleton] at ha
+    subst ha
+    simpa using hb
+  · intro hy
+    exact ⟨0, Finset.mem_singleton_self 0, y, hy, by simp⟩
+
+/-- k copies of a fixed-length element: exactly one length, k * a -/
+theorem kfold_singleton (a : ℕ) : ∀ k, kfold {a} k = {k * a} := by
+  intro k
+  induction k with
+  | zero => simp [kfold]
+  | succ k ih =>
+    simp only [kfold]
+    rw [ih]
+    ext y
+    rw [mem_sumset]
+    constructor
+    · rintro ⟨x, hx, z, hz, rfl⟩
+      rw [Finset.mem_singleton] at hx hz
+      subst hx; subst hz
+      rw [Finset.mem_singleton, Nat.succ_mul]
+    · intro hy
+      rw [Finset.mem_singleton] at hy
+      exact ⟨k * a, Finset.mem_singleton_self _, a, Finset.mem_singleton_self _, by rw [hy, Nat.succ_mul]⟩
+
+/-- at most K copies of a fixed-length element: the multiples 0, a, ..., K * a -/
+theorem mem_rangefold_singleton (a K y : ℕ) : y ∈ rangefold {a} K ↔ ∃ j, j ≤ K ∧ y = j * a := by
+  simp only [rangefold, mem_biUnion, mem_range]
+  constructor
+  · rintro ⟨k, hk, hy⟩
+    rw [kfold_singleton, Finset.mem_singleton] at hy
+    exact ⟨k, by omega, hy⟩
+  · rintro ⟨j, hj, rfl⟩
+    exact ⟨j, by omega, by rw [kfold_singleton]; exact Finset.mem_singleton_self _⟩
+
+theorem aligned_singleton {w a : ℕ} (h : a ∣ w) : aligned {w} a := by
+  intro x hx
+  rw [Finset.mem_singleton] at hx
+  subst hx
+  exact h
+
+theorem aligned_of_dvd {A : Finset ℕ} {a b : ℕ} (hab : a ∣ b) (hA : aligned A b) : aligned A a :=
+  fun x hx => Nat.dvd_trans hab (hA x hx)
+
+theorem aligned_union {A B : Finset ℕ} {a : ℕ} (hA : aligned A a) (hB : aligned B a) : aligned (A ∪ B) a := by
+  intro x hx
+  rcases Finset.mem_union.mp hx with h | h
+  · exact hA x h
+  · exact hB x h
+end Pydsdl
